@@ -42,7 +42,7 @@ class Gen:
         self.r = r
         self.cfg = cfg
         self.q = set(cfg.get("quarantine", ()))
-        self.names = Names(r, cfg["keyword_rate"], cfg["styles"])
+        self.names = Names(r, cfg["keyword_rate"], cfg["styles"], cfg.get("max_words", 3), cfg.get("name_pool"))
         self.files = []
         self.created = []             # components in creation order (only earlier ones may be referenced)
         self.features = set()
@@ -309,6 +309,14 @@ class Gen:
 
     def make_gelement(self, fidx, taken_elems):
         r = self.r
+        if self.cfg["reuse_names"] and r.random() < 0.3:
+            # the benign idiom <element name="Foo" type="tns:Foo"/>
+            free = [c for c in self.files[fidx].components if c.kind == "complex"
+                    and not any(g.kind == "gelement" and g.name.xml == c.name.xml for g in self.files[fidx].components)]
+            if free:
+                c = r.choice(free)
+                self.features.add("element-named-like-its-type")
+                return GlobalElement(c.name, type=TypeRef(c.name.xml, fidx, c), file=fidx)
         nm = self.names.fresh(set(), taken_elems)
         if r.random() < 0.45:
             t = self.pick_member_type(fidx)
@@ -336,7 +344,7 @@ class Gen:
         for kind, fidx in plan:
             # a Rust module has one item namespace: unless the run is about name reuse, elements and types share it
             tt = taken_types[fidx]
-            te = taken_elems[fidx] if cfg["reuse_names"] else tt
+            te = taken_elems[fidx] if cfg["reuse_names"] and "element-type-name-clash" not in self.q else tt
             if kind == "simple":
                 c = self.make_simple(fidx, tt)
             elif kind == "complex":
@@ -359,7 +367,7 @@ class Gen:
         f0 = self.files[0]
         # make sure there are enough anonymous/typed global elements to serve as body/header elements
         taken_e = {c.name.pascal for c in f0.components}
-        names = Names(r, cfg["keyword_rate"], cfg["styles"])
+        names = Names(r, cfg["keyword_rate"], cfg["styles"], cfg.get("max_words", 3), cfg.get("name_pool"))
         w = Wsdl(f0.uri, names.fresh(set(), set(), style="pascal", allow_keyword=False), names.fresh(set()), names.fresh(set()),
                  names.fresh(set()))
         f0.filename = w.filename
@@ -373,7 +381,8 @@ class Gen:
                 fidx = r.choice(fidx_choices)
                 tk = {c.name.pascal for c in self.files[fidx].components}
                 g = self.make_gelement(fidx, tk)
-                if not g.anonymous and r.random() < 0.7:
+                clash = any(c.kind != "gelement" and c.name.pascal == g.name.pascal for c in self.files[fidx].components)
+                if not g.anonymous and r.random() < 0.7 and not clash:
                     g = GlobalElement(g.name, content=self.make_content(fidx, set(), allow_empty=False), file=fidx)
                 self.created.append(g)
                 self.files[fidx].components.append(g)
